@@ -12,6 +12,21 @@ ENGINES = [
 ]
 
 CHECKS = {
+    "C01": {
+        "level": "model_checking",
+        "text": "Bounded symbolic model checking of the generated __eq__/__hash__ (and the legacy Expression.__eq__/get_hash): "
+                "the name `hash` they look up is rebound to an uninterpreted function of a symbolic seed, scalar fields are z3 "
+                "String/Int proxies; for every node class (45 built-in + 7 user classes in decorated/legacy/mixed hierarchies), "
+                "3 child variants and 6 pre-histories z3 proves per path, for all field values, seeds and hash functions "
+                "(collisions included): == iff same class and pairwise-equal fields, symmetry, transitivity, reflexivity, != "
+                "is the negation, == implies equal hashes. A concrete-alphabet family (real hash) covers 1/1.0/True, NaN, "
+                "kw mappings, sibling classes, dict/set interchangeability, FrozenInstanceError on rebinding and operation "
+                "histories (solver-enumerated selectors with a coverage query).",
+        "design_ref": "DESIGN.md §4 C01",
+        "note": "Trusted: the UF model of hash (equal input => equal hash, nothing else), z3 string equality, the harness's "
+                "field-wise oracle. Real dict bucket placement and python -O are outside the claim.",
+        "technique": SOLVER_TECH + "; hash() modelled as an uninterpreted function of a symbolic seed",
+    },
     "C02": {
         "level": "model_checking",
         "text": "Bounded symbolic model checking: for every expression skeleton up to depth 2 (thorough: depth 3 over a reduced "
